@@ -544,6 +544,20 @@ func (ex *exec) encode(fr *frame, t types.Type, v value, addr *value, depth int)
 			}
 			return &jnode{kind: jFloat, v: f}
 		case u.Kind() == types.String:
+			if nt, ok := t.(*types.Named); ok && nt.Obj().Name() == "Number" && nt.Obj().Pkg() != nil && nt.Obj().Pkg().Path() == "encoding/json" {
+				// json.Number is written as the number literal it holds ("" as 0)
+				lit, ok := v.(string)
+				if !ok {
+					panic(unsupported("json.Marshal of a symbolic json.Number"))
+				}
+				if lit == "" {
+					lit = "0"
+				}
+				if _, err := strconv.ParseFloat(lit, 64); err != nil {
+					panic(jsonErr{ex.mkError("json: invalid number literal " + strconv.Quote(lit))})
+				}
+				return &jnode{kind: jLit, lit: lit}
+			}
 			return &jnode{kind: jStr, v: v}
 		}
 	case *types.Pointer:
